@@ -182,22 +182,32 @@ def check(ctx, rep):
     # result converted to function type
     rets = [r.value for r in main if isinstance(r, ast.Return)]
     parsed = [norm(a.targets[0]) for a in main if isinstance(a, ast.Assign) and a.value in parse_calls]
-    ok = len(rets) == 1 and isinstance(rets[0], ast.Call) and norm(rets[0].func) == 'values.to_type' and len(rets[0].args) == 2 \
-        and norm(rets[0].args[0]) == 'self._sigil' and norm(rets[0].args[1]) in parsed
-    rep.ob('result.converted', 'result of the parse is converted to the function sigil', ok, repr([norm(r) for r in rets]), ctx.where(ev))
-    # what is collected in args is the argument itself (converted or not), and args is what gets bound
+    conv_call = rets[0].func.value if len(rets) == 1 and isinstance(rets[0], ast.Call) and isinstance(rets[0].func, ast.Attribute) and rets[0].func.attr == 'clone' else None
+    ok = conv_call is not None and isinstance(conv_call, ast.Call) and norm(conv_call.func) == 'values.to_type' and len(conv_call.args) == 2 \
+        and norm(conv_call.args[0]) == 'self._sigil' and norm(conv_call.args[1]) in parsed
+    rep.ob('result.converted', 'the result of the parse is converted to the function sigil and returned as a copy', ok,
+           '%r -- a result that is just a parameter is a view on that variable; restoring the caller`s value in the finally changes it (DEF FNA(X)=X: FNA(3) gives 0)' % [norm(r) for r in rets], ctx.where(ev))
+    # what is collected in args is a COPY of the argument (converted or not): an argument that is a plain variable is a view on
+    # that variable's storage and would change when a parameter of the same name is bound (FNP(Q,P) with parameters P,Q)
     arg_loops = [s_ for s_ in main if isinstance(s_, ast.For) and 'iargs' in norm(s_.iter)]
     ok = False
+    detail = ''
     if len(arg_loops) == 1:
         lp = arg_loops[0]
         defs = dict((norm(a.targets[0]), norm(a.value)) for a in own_nodes(lp) if isinstance(a, ast.Assign))
         appended = [norm(n.args[0]) for n in own_nodes(lp) if isinstance(n, ast.Call) and norm(n.func) == 'args.append']
         if isinstance(lp.target, ast.Tuple) and norm(lp.iter) == 'zip(iargs, conversions)':
             a_name, c_name = [norm(e) for e in lp.target.elts]
-            ok = len(appended) == 1 and (defs.get(appended[0]) in ('%s(%s)' % (c_name, a_name), a_name) or (appended[0] == a_name and a_name not in defs))
+            accepted = ('%s(%s).clone()' % (c_name, a_name), '%s.clone()' % a_name)
         elif isinstance(lp.target, ast.Name) and norm(lp.iter) == 'iargs':
-            ok = appended == [lp.target.id] and lp.target.id not in defs
-    rep.ob('arguments.converted-value-is-bound', 'the value collected for binding is the argument (converted with its own conversion, or as given)', ok, '', ctx.where(ev))
+            accepted = ('%s.clone()' % lp.target.id,)
+        else:
+            accepted = ()
+        got = defs.get(appended[0], appended[0]) if len(appended) == 1 else None
+        ok = got in accepted
+        detail = 'collected: %s' % got
+    rep.ob('arguments.converted-value-is-bound', 'the value collected for binding is a copy of the argument (converted with its own conversion, or as given)', ok,
+           detail + ' -- without the copy an argument that names a variable changes when an earlier parameter of that name is bound', ctx.where(ev))
     zipped = [norm(s_.iter) for s_ in main if isinstance(s_, ast.For) and any(b_ in list(own_nodes(s_)) for b_ in binds)]
     rep.ob('arguments.converted-value-is-bound', 'parameters are bound pairwise from the collected arguments', zipped == ['zip(varnames, args)'], repr(zipped), ctx.where(ev))
     # GC roots: registered where they are created, released in a finally that runs whenever one was registered
@@ -224,6 +234,18 @@ def check(ctx, rep):
                    ctx.where(ad))
     releases = [norm(n.args[0]) for n in release_calls]
     rep.ob('gc-roots.released', 'finally releases the registered values', sorted(releases) == ['arg', 'varsave[name]'], repr(releases), ctx.where(ev))
+    # parameter names get their type when the function is CALLED (DEFINT after DEF FN changes an unsigilled parameter together
+    # with the body that uses it): define() keeps the names as read, evaluate() completes them
+    df = ctx.fn(UF + ':UserFunctionManager.define')
+    reads = [a for a in own_nodes(df) if isinstance(a, ast.Assign) and norm(a.value) == 'ins.read_name()' and isinstance(a.targets[0], ast.Name)]
+    apps = [c for c in own_nodes(df) if isinstance(c, ast.Call) and norm(c.func) == 'fnvars.append']
+    ctor = [c for c in own_nodes(df) if isinstance(c, ast.Call) and norm(c.func) == 'UserFunction']
+    ok = len(reads) == 1 and len(apps) == 1 and isinstance(apps[0].args[0], ast.Name) and apps[0].args[0].id == reads[0].targets[0].id \
+        and not [a for a in own_nodes(df) if isinstance(a, ast.Assign) and norm(a.targets[0]) == reads[0].targets[0].id and a is not reads[0] and a.lineno < apps[0].lineno] \
+        and len(ctor) == 1 and len(ctor[0].args) > 2 and norm(ctor[0].args[2]) == 'fnvars'
+    rep.ob('parameters.typed-at-call-time', 'define() stores the parameter names as read; their sigil is completed at each call', ok,
+           'the parameter names are completed when DEF FN runs: a DEFtype statement between DEF FN and the call types the body and the parameter differently',
+           ctx.where(df))
     # the collector actually uses temp_values as roots
     cgb = ctx.fn('pcbasic/basic/memory/memory.py:DataSegment._collect_garbage')
     rep.ob('gc-roots.collector-reads-temp_values', '_collect_garbage includes temp_values among the roots',
@@ -264,10 +286,17 @@ def variants(ctx):
         Va('parse-before-try', 'break', UF, in_ev(lambda fn: _hoist_parse(fn)), expect='structure.parse'),
         Va('arguments-registered-outside-protected-region', 'break', UF, in_ev(lambda fn: _hoist_registration(fn)), expect='gc-roots.released'),
         Va('no-argument-conversion', 'neutral', UF,   # neutral since 040204ed: Scalars.set converts, under the restoring finally
-           in_ev(lambda fn: mu.replace_stmt(fn, mu.text_is('value = conv(arg)'), 'value = arg'))),
+           in_ev(lambda fn: mu.replace_stmt(fn, mu.text_is('value = conv(arg).clone()'), 'value = arg.clone()'))),
+        Va('argument-not-copied', 'break', UF,
+           in_ev(lambda fn: mu.replace_stmt(fn, mu.text_is('value = conv(arg).clone()'), 'value = conv(arg)')), expect='arguments.converted-value-is-bound'),
+        Va('result-not-copied', 'break', UF,
+           in_ev(lambda fn: mu.replace_expr(fn, mu.text_is('values.to_type(self._sigil, value).clone()'), 'values.to_type(self._sigil, value)')), expect='result.converted'),
         Va('wrong-value-collected-for-binding', 'break', UF,
            in_ev(lambda fn: mu.replace_stmt(fn, mu.text_is('args.append(value)'), 'args.append(conv)')), expect='arguments.converted-value-is-bound'),
         Va('conversion-deferred-to-binding', 'neutral', UF, in_ev(lambda fn: _defer_conversion(fn))),
+        Va('parameter-sigils-fixed-at-definition', 'break', UF,
+           lambda tree: mu.replace_expr(mu.find_def(tree, 'UserFunctionManager.define'), mu.text_is('fnvars.append(name)'), 'fnvars.append(self._memory.complete_name(name))'),
+           expect='parameters.typed-at-call-time'),
         Va('rename-save-loc', 'neutral', UF, in_ev(lambda fn: mu.rename_local(fn, 'value', 'val'))),
     ]
 
@@ -323,5 +352,6 @@ def _defer_conversion(fn):
     lp = loops[0]
     lp.target = ast.Name(id='value', ctx=ast.Store())
     lp.iter = ast.parse('iargs', mode='eval').body
-    lp.body = [st for st in lp.body if norm(st) != 'value = conv(arg)']
+    lp.body = [ast.parse('value = value_.clone()').body[0]] + [st for st in lp.body if norm(st) != 'value = conv(arg).clone()']
+    lp.target = ast.Name(id='value_', ctx=ast.Store())
     return True
